@@ -1,11 +1,33 @@
 (* C12  Header text survives encoding.  Statements only.
-   What is PROVED here: the part about encoded-words, and the whole round trip for values that need no
-   encoding (C12_plain_value_unfolds).  The round trip decode_unstructured (encode v) = v for values that DO
-   need encoding is established by running the extracted reader on the implementation's output (exhaustive
-   small alphabet + families), see DESIGN.md. *)
+   What is PROVED here: the round trip for unstructured header values, for EVERY string (C12_roundtrip), the
+   part about encoded-words, and the unfolding of values that need no encoding.  The round trips of display
+   names (phrase) and file names (RFC 2231) are established by running the extracted readers on the
+   implementation's output (exhaustive small alphabet + families), see DESIGN.md. *)
 From Coq Require Import Strings.String.
 From LV Require Import Base.Bytes Base.Str Base.Res Base.Base64 Model.HeaderEnc Spec.Rfc2047 Proofs.Rfc2047Proofs
-  Proofs.Base64Proofs Spec.Rfc5322 Proofs.HeaderPlainProofs.
+  Proofs.Base64Proofs Spec.Rfc5322 Proofs.HeaderPlainProofs Base.Utf8 Proofs.HeaderRtProofs.
+
+(* THE property for unstructured values (Subject, Comments, custom text headers): for every header name and
+   EVERY well-formed UTF-8 string - any length, any mixture of words that need encoding and words that do not,
+   runs of spaces and tabs anywhere, CR / LF / NUL / controls, literal "=?...?=" tokens - HeaderValue::new
+   succeeds (no panic, no error) and a conforming reader (unfold, split at white space, decode every
+   encoded-word, drop the white space between two adjacent encoded-words: Spec/Rfc2047.v, written from the
+   RFC) recovers exactly that string, inner and trailing blanks included. *)
+Theorem C12_roundtrip : forall name value : bytes, utf8_valid value = true ->
+  exists e, header_value_encode name value = Ok e /\ decode_unstructured e = value.
+Proof. exact header_value_roundtrip_utf8. Qed.
+
+(* the same without assuming UTF-8: it is enough that no four continuation bytes follow one another (without
+   that the real encoder does not terminate either: HeaderProofs.stuck_panics) *)
+Theorem C12_roundtrip_bytes : forall name value : bytes, nc4 value = true -> bytes_ok value = true ->
+  exists e, header_value_encode name value = Ok e /\ decode_unstructured e = value.
+Proof. exact header_value_roundtrip. Qed.
+
+Example C12_roundtrip_example :
+  let v := [195; 169] ++ bs "  " ++ [195; 169] ++ bs " =?utf-8?q?x?= plain" ++ [9; 32; 32] ++ [240; 159; 152; 128] ++ bs "  " in
+  utf8_valid v = true /\
+  match header_value_encode (bs "Subject") v with Ok e => decode_unstructured e = v /\ e <> v | _ => False end.
+Proof. vm_compute. split; [reflexivity|split; [reflexivity|discriminate]]. Qed.
 
 (* Every encoded-word the encoder writes - "=?utf-8?b?" base64(word) "?=" for a piece of at most
    45 bytes - is a valid RFC 2047 encoded-word on its own, is at most 75 characters long, and a
@@ -48,3 +70,5 @@ Print Assumptions C12_plain_value_unfolds.
 Print Assumptions C12_words_valid.
 Print Assumptions C12_piece_bound.
 Print Assumptions C12_b64_roundtrip.
+Print Assumptions C12_roundtrip.
+Print Assumptions C12_roundtrip_bytes.
